@@ -9,6 +9,8 @@
 #include <string.h>
 #include "vh.h"
 #include "stub_warnp.c"
+struct sock_addr; struct http_request; struct http_response;
+void * stub_request2(struct sock_addr * const *, struct http_request *, size_t, int (*)(void *, struct http_response *), void *, char *);
 #include "http.c"
 #define NHMAX 3
 static char * mkstr(size_t n) { char * s = malloc(n + 1); ASSUME(s != NULL); for (size_t i = 0; i < 2; i++) if (i < n) { s[i] = (char)nd_u8(); ASSUME(s[i] != 0); } s[n] = 0; return s; }
@@ -24,5 +26,20 @@ void h_findheader(void)
 	const char * want = NULL;
 	for (size_t i = NHMAX; i-- > 0;) if (i < nh && same(hs[i].header, nl[i], key, kl)) want = vals[i];
 	CHECK(r == want, "value of the first header whose name equals the key, NULL if none");
+	REACHED();
+}
+
+/* http_request == http_request2 with no TLS host name: every argument forwarded unchanged, result passed back */
+static struct sock_addr * const * f_addrs; static struct http_request * f_req; static size_t f_max; static int (*f_cb)(void *, struct http_response *); static void * f_ck; static char * f_host; static int f_calls; static char FTOK;
+void * stub_request2(struct sock_addr * const * a, struct http_request * r, size_t m, int (*cb)(void *, struct http_response *), void * c, char * h)
+{ f_calls++; f_addrs = a; f_req = r; f_max = m; f_cb = cb; f_ck = c; f_host = h; return nd_bool() ? &FTOK : NULL; }
+static int ucb2(void * c, struct http_response * r) { (void)c; (void)r; return 0; }
+void h_http_request(void)
+{
+	static struct sock_addr * AD[1]; static struct http_request RQ; static char CK;
+	size_t m = nd_size();
+	void * r = http_request(AD, &RQ, m, ucb2, &CK);
+	CHECK(f_calls == 1 && f_addrs == AD && f_req == &RQ && f_max == m && f_cb == ucb2 && f_ck == &CK && f_host == NULL, "arguments forwarded unchanged, no TLS host");
+	CHECK(r == NULL || r == &FTOK, "result passed back");
 	REACHED();
 }
